@@ -21,14 +21,18 @@
      (JRdOwn), per update of it (JWrOwn).  [gen_file_traced] is that generator;
      [cjsgen_fine_prog] replays its log access by access.
 
-   * Bundle.Compile of an independent bundle is [compile] of Model/Compile.v:
-     [add_all_files] folds [registry_add] from the EMPTY registry -- a registry
-     that the compiling goroutine allocates and that nobody else can reach
-     until Compile returns.  The thread writes every intermediate registry and
-     the final result to its own location.  *)
+   * Bundle.Compile of an independent bundle builds a registry that the
+     compiling goroutine allocates and that nobody else can reach until Compile
+     returns: [cc_steps] writes to the thread's own location, then the result
+     [cc_result], of ANY type.  Proofs/ConcCompileInst.v instantiates it with
+     Model/Compile.v ([add_all_files] folds [registry_add] from the EMPTY
+     registry: one write per registry the fold passes through; the result is
+     [compile]).  That file is compiled on every run but is deliberately NOT
+     imported here: Model/Compile.v imports the message-id model, and a
+     translator failure in the message-id tables must not be charged to C09. *)
 From Coq Require Import List Arith Bool.
 From Soy Require Import Model.Bytes Model.Values Model.Outcome Model.Ast Model.Interp Model.JsGen Generated.JsGenTrace
-  Model.Compile Model.Conc Model.ConcRender.
+  Model.Conc Model.ConcRender.
 Import ListNotations.
 Open Scope N_scope.
 
@@ -58,11 +62,14 @@ Definition jacc_count (t : list jacc) : nat * nat * nat :=
 
 (* ---------------- threads ---------------- *)
 
+Section Tasks.
+Variable CR : Type.                                          (* what a compilation returns *)
+
 (* results *)
 Inductive cres :=
 | CRRender (r : option render_result)
 | CRJs (j : option (outcome (list chunk)))                 (* None = no such file / the store holds no bundle *)
-| CRCompiled (v : sval).
+| CRCompiled (v : CR).
 
 Definition cprog := prog rloc sval cres.
 
@@ -75,7 +82,7 @@ Definition crender_prog (rq : creq) : cprog := prog_map render_res (render_prog 
 Definition js_on (o : jopts) (fuel : nat) (file : nat) (vf : sval) : option (outcome (list chunk)) :=
   match vf with
   | SFiles fs => match nth_error fs file with
-                 | Some f => Some (JsGen.gen_file o fuel (sfile_name f) (sfile_body f))
+                 | Some f => Some (JsGen.gen_file o fuel (jf_name f) (jf_body f))
                  | None => None
                  end
   | _ => None
@@ -101,24 +108,14 @@ Definition cjsgen_fine_prog (i : nat) (o : jopts) (fuel : nat) (file : nat) : cp
     | SFiles fs =>
         match nth_error fs file with
         | Some f =>
-            let '(r, tr) := gen_file_traced o fuel (sfile_name f) (sfile_body f) in
+            let '(r, tr) := gen_file_traced o fuel (jf_name f) (jf_body f) in
             replay i (match tr with Some t => t | None => [] end) (Done (CRJs (Some r)))
         | None => Done (CRJs None)
         end
     | _ => Done (CRJs None)
     end)).
 
-(* Bundle.Compile: the registries that add_all_files passes through, starting after [r] *)
-Fixpoint creg_states (r : creg) (srcs : list src) : list creg :=
-  match srcs with
-  | [] => []
-  | SrcParseErr _ _ :: _ => []
-  | SrcOk f :: rest =>
-      match registry_add r f with
-      | inl _ => []
-      | inr r' => r' :: creg_states r' rest
-      end
-  end.
+(* Bundle.Compile of an independent bundle: a private computation *)
 Fixpoint write_own (i : nat) (vs : list sval) (k : cprog) : cprog :=
   match vs with
   | [] => k
@@ -126,17 +123,12 @@ Fixpoint write_own (i : nat) (vs : list sval) (k : cprog) : cprog :=
   end.
 
 Record ccompile := {
-  cc_node_string : node -> bstr;
-  cc_orders : orders;
-  cc_globals : list gmap;
-  cc_srcs : list src;
+  cc_steps : nat;        (* how many times it updates the registry it is building *)
+  cc_result : CR;
 }.
-Definition compile_of (c : ccompile) : cresult compiled :=
-  compile (cc_node_string c) (cc_orders c) (cc_globals c) (cc_srcs c).
 
 Definition ccompile_prog (i : nat) (c : ccompile) : cprog :=
-  write_own i (map SCreg (empty_creg :: creg_states empty_creg (cc_srcs c)))
-    (Write (LOwn i) (SCompiled (compile_of c)) (Read (LOwn i) (fun v => Done (CRCompiled v)))).
+  write_own i (repeat SClobbered (cc_steps c)) (Done (CRCompiled (cc_result c))).
 
 Inductive ctask :=
 | CRender (rq : creq)
@@ -163,7 +155,7 @@ Definition ctask_progs (ts : list ctask) : list cprog := cprogs_from 0 ts.
 Definition js_fine_on (o : jopts) (fuel : nat) (file : nat) (vf : sval) : option (outcome (list chunk)) :=
   match vf with
   | SFiles fs => match nth_error fs file with
-                 | Some f => Some (fst (gen_file_traced o fuel (sfile_name f) (sfile_body f)))
+                 | Some f => Some (fst (gen_file_traced o fuel (jf_name f) (jf_body f)))
                  | None => None
                  end
   | _ => None
@@ -173,11 +165,30 @@ Definition ctask_alone (t : ctask) (s : store rloc sval) : cres :=
   | CRender rq => CRRender (render_alone rq s)
   | CJsGen o fuel file => CRJs (js_on o fuel file (s LFiles))
   | CJsGenFine o fuel file => CRJs (js_fine_on o fuel file (s LFiles))
-  | CCompile c => CRCompiled (SCompiled (compile_of c))
+  | CCompile c => CRCompiled (cc_result c)
   end.
+End Tasks.
+Arguments CRRender {CR} r.
+Arguments CRJs {CR} j.
+Arguments CRCompiled {CR} v.
+Arguments CRender {CR} rq.
+Arguments CJsGen {CR} o fuel file.
+Arguments CJsGenFine {CR} o fuel file.
+Arguments CCompile {CR} c.
+Arguments cc_steps {CR} c.
+Arguments cc_result {CR} c.
+Arguments Build_ccompile {CR} cc_steps cc_result.
+Arguments ctask_prog {CR} i t.
+Arguments ctask_progs {CR} ts.
+Arguments cprogs_from {CR} i0 ts.
+Arguments ctask_alone {CR} t s.
+Arguments ccompile_prog {CR} i c.
+Arguments replay {CR} i t k.
+Arguments write_own {CR} i vs k.
+
 
 (* a compiled bundle in the store: registry, files, configuration, messages, caller's maps *)
-Definition bundle_store_files (reg : registry) (fs : list sfile) (oblig : list bstr) (msgs : option msg_bundle) (h : cheap)
+Definition bundle_store_files (reg : registry) (fs : list jfile) (oblig : list bstr) (msgs : option msg_bundle) (h : cheap)
   : store rloc sval :=
   fun l => match l with
            | LFiles => SFiles fs
